@@ -203,18 +203,57 @@ def expected(msgs, info_only, use_filter, cont):
     return ys, exc, tables
 
 
-def rule_r1(repo):
+KINDS = ('ok', 'unmatched', 'damaged-data', 'damaged-header', 'tables', 'tables-unmatched')
+
+
+def generated_scenario(kinds):
+    """A stream made of the given message kinds, separated by short signature-free gaps; bodies of intact messages carry decoys."""
+    msgs, decoys, stops = [], [], []
+    pos = 3
+    for i, k in enumerate(kinds):
+        length = 40 + 8 * i
+        kw = {}
+        if k == 'unmatched':
+            kw = dict(matched=False)
+        elif k == 'damaged-data':
+            kw = dict(full='BitReadError', info_len=length + 9)
+        elif k == 'damaged-header':
+            kw = dict(full=LIB, info=LIB)
+        elif k == 'tables':
+            kw = dict(category=11, n_subsets=2)
+        elif k == 'tables-unmatched':
+            kw = dict(category=11, n_subsets=2, matched=False)
+        msgs.append(Msg(pos, length, **kw))
+        if k in ('ok', 'unmatched', 'tables'):
+            decoys.append(pos + 12)
+            stops.append(pos + 20)
+        stops.append(pos + length - 4)
+        pos += length + (i % 3)
+    return msgs, Stream(pos + 24, [m.start for m in msgs] + decoys, stops)
+
+
+def rule_r1(repo, tier='quick'):
     rr = RuleResult('C11.R1', 'stream scanner folded over a scripted stream: yields, exceptions and table side effects per mode')
     fi = repo.func('decoder', 'generate_bufr_message')
-    for info_only in (False, True):
+    import itertools
+    scenarios = [('curated', scenario)]
+    if tier == 'thorough':
+        for n in (1, 2, 3, 4):
+            for kinds in itertools.product(KINDS, repeat=n):
+                scenarios.append(('/'.join(kinds), (lambda kk: (lambda: generated_scenario(kk)))(kinds)))
+    for sname, make in scenarios:
+      for info_only in (False, True):
         for use_filter in (False, True):
             for cont in (True, False):
-                msgs, stream = scenario()
+                msgs, stream = make()
                 it = Scanner(repo, msgs, stream)
                 res = it.run_function(fi, lambda: {'decoder': Obj('DecoderStub', {}), 's': stream, 'info_only': info_only, 'continue_on_error': cont,
                                                    'filter_expr': 'EXPR' if use_filter else None, 'args': (), 'kwargs': {}})
                 name = '%s, %s, %s' % ('info-only' if info_only else 'full', 'filter' if use_filter else 'no filter', 'continue on error' if cont else 'stop on error')
-                rr.instance('scan (%s)' % name)
+                if sname != 'curated':
+                    name = 'stream [%s]: %s' % (sname, name)
+                else:
+                    rr.instance('scan (%s)' % name)
                 if len(res) != 1:
                     rr.fail('generate_bufr_message:paths', fi.where, '%s: %d paths on a fully scripted stream' % (name, len(res)))
                     continue
@@ -253,12 +292,15 @@ def rule_r1(repo):
                 bad = [e for e in r.events if e[0] == 'decode_arg']
                 if bad:
                     rr.fail(key + ':slice', fi.where, '%s: the decoder is given %s instead of the rest of the stream from the found signature' % (name, bad[0][1]))
-                if any(e[1] == 130 for e in dec):
+                if sname == 'curated' and any(e[1] == 130 for e in dec):
                     rr.fail(key + ':inner-signature', fi.where, '%s: a start signature inside the body of a message is decoded as a new message' % name)
                 after = [e for e in r.events if e[0] in ('invalidate', 'add_extra_entries')]
                 if wtab and tabs == wtab and [e[0] for e in after] != ['invalidate', 'add_extra_entries'] * len(wtab):
                     rr.fail(key + ':tables-registration', fi.where, '%s: after extracting table definitions the scanner performs %s (expected invalidate, then add_extra_entries)' % (
                         name, [e[0] for e in after]))
+    if len(scenarios) > 1:
+        rr.instance('%d generated streams (all sequences of 1..4 messages over %d kinds) x 8 modes' % (len(scenarios) - 1, len(KINDS)))
+    rr.extra = {'streams': len(scenarios), 'folds': len(scenarios) * 8}
     rr.require_floor(8)
     return rr
 
@@ -323,7 +365,7 @@ def rule_r3(repo):
 
 
 def run(repo, check):
-    check.run_rule(rule_r1, repo)
+    check.run_rule(rule_r1, repo, check.tier)
     check.run_rule(rule_r2, repo)
     check.run_rule(rule_r3, repo)
     from sa.rules import c04, c17
